@@ -78,7 +78,7 @@ fn extend(s: &G) -> Vec<G> {
     // the parameter in a bound that is not the first one
     un(&|s| format!("Box<dyn Send + Tr<{s}>>"), 0);
     un(&|s| format!("&(dyn 'static + Sync + AsRef<[{s}]>)"), 0);
-    un(&|s| format!("impl Send + Tr<{s}>"), 0);
+    un(&|s| format!("(impl Send + Tr<{s}>)"), 0);
     un(&|s| format!("Box<dyn Tr<u8> + Tr2<u8, Out = {s}>>"), 0);
     un(&|s| format!("impl Tr<{s}>"), 0);
     un(&|s| format!("Foo<Item: Tr<{s}>>"), 0);
@@ -95,7 +95,7 @@ fn extend(s: &G) -> Vec<G> {
         both(&|s, o| format!("({o}, {s}, {o})"), &mut out);
         both(&|s, o| format!("Box<dyn Fn({s}) -> {o}>"), &mut out);
         both(&|s, o| format!("Box<dyn Tr<{s}> + Tr2<{o}>>"), &mut out);
-        both(&|s, o| format!("impl Tr<{s}> + Tr2<{o}>"), &mut out);
+        both(&|s, o| format!("(impl Tr<{s}> + Tr2<{o}>)"), &mut out);
         both(&|s, o| format!("impl FnOnce({o}) -> {s}"), &mut out);
         both(&|s, o| format!("fn({s}, {o}) -> {o}"), &mut out);
         both(&|s, o| format!("fn({o}) -> {s}"), &mut out);
@@ -122,7 +122,7 @@ fn extend(s: &G) -> Vec<G> {
         lt(&|s, l| format!("Cow<{l}, {s}>"), &mut out);
         lt(&|s, l| format!("Box<dyn Tr<{s}> + {l}>"), &mut out);
         lt(&|s, l| format!("Box<dyn Tr<{l}, {s}>>"), &mut out);
-        lt(&|s, l| format!("impl Tr<{s}> + {l}"), &mut out);
+        lt(&|s, l| format!("(impl Tr<{s}> + {l})"), &mut out);
         lt(&|s, l| format!("Box<dyn Fn({s}) -> u8 + {l}>"), &mut out);
         out.push(G { text: format!("<&{} {} as Tr>::Out", l.text, s.text), bi: 0, decl: s.decl | l.decl });
     }
@@ -317,8 +317,11 @@ fn squash(s: String) -> String {
 fn check_impl(src: &str, used: u8, which: usize, t: &mut Tally) {
     let di: syn::DeriveInput = match syn::parse_str(src) {
         Ok(d) => d,
-        Err(_) => {
+        Err(e) => {
             t.hit("generator_unparseable");
+            if std::env::var("C19_DEBUG").is_ok() {
+                eprintln!("unparseable receiver ({e}): {src}");
+            }
             return;
         }
     };
@@ -521,7 +524,7 @@ pub fn main(args: &Args) {
 
 #[allow(dead_code)]
 pub fn debug_unparseable() {
-    for g in types(1) {
+    for g in types(2) {
         if syn::parse_str::<syn::Type>(&g.text).is_err() {
             println!("unparseable: {}", g.text);
         }
